@@ -31,13 +31,25 @@
 (*                    on the full reply queue and a writer waiting for a   *)
 (*                    silent backend never notice that the listener closed *)
 (*                    the connection - neither of them reads it)           *)
+(*   FixUpstreamQuitFirst - redisProc.Stop closes the upstream's quit      *)
+(*                    latch before it waits for the listener (without it a *)
+(*                    session reader blocked in the Send of a backend      *)
+(*                    whose queues are full - ClientQCap requests in       *)
+(*                    flight, silent backend - keeps the listener waiting, *)
+(*                    and the backend is only told to quit afterwards)     *)
+(*   FixSignalBeforeWait  - upstream.Serve tells the backend clients to    *)
+(*                    quit before it waits for the slot refresher (the     *)
+(*                    refresher, too, can be blocked in such a Send)       *)
+(* The stop-all itself (lock, per-client signal/wait, redirections in      *)
+(* flight) is refined in RedisStopAll.tla.                                 *)
 (***************************************************************************)
 EXTENDS Naturals, Sequences, FiniteSets, TLC
 
 CONSTANTS Backends,          \* initial behaviours of the backend: subset of {"responsive", "silent", "closed"}
           MayClose,          \* the backend may go away later (connection dropped)
           WithSession, WithRefresh,
-          FixSessionWait, FixRefreshWait, FixProcQuit,
+          FixSessionWait, FixRefreshWait, FixProcQuit, FixUpstreamQuitFirst, FixSignalBeforeWait,
+          ClientQCap,        \* requests a backend connection takes before Send blocks (code: 2049)
           NReq,              \* requests the downstream client pipelines (session requests 1..NReq)
           SessQCap,          \* capacity of session.processingReqs (code: 32)
           MaxRounds          \* refresh rounds
@@ -72,14 +84,14 @@ TypeOK ==
   /\ backend \in {"responsive", "silent", "closed"}
   /\ xp \in {"idle", "x0", "x0b", "x1", "x2", "x3", "ret"}
   /\ dconn \in {"open", "closed"} /\ squit \in BOOLEAN /\ pquit \in BOOLEAN
-  /\ rd \in {"read", "handle", "enqueue", "rexit", "rwait", "done", "absent"}
+  /\ rd \in {"read", "handle", "send", "enqueue", "rexit", "rwait", "done", "absent"}
   /\ wr \in {"select", "wait", "encode", "exited", "absent"}
   /\ sessQ \in Seq(SReqs) /\ Len(sessQ) <= SessQCap /\ sent \in 0..NReq /\ nread \in 0..NReq /\ wcur \in 0..NReq
   /\ req \in [Reqs -> {"none", "pending", "ok", "err"}]
   /\ client \in {"none", "alive", "dead"} /\ inflight \subseteq Reqs
   /\ uquit \in BOOLEAN /\ udone \in BOOLEAN
-  /\ up \in {"run", "stopClients", "done"}
-  /\ rf \in {"sel", "refresh", "rwait", "timer", "exited", "absent"}
+  /\ up \in {"run", "signalled", "stopClients", "done"}
+  /\ rf \in {"sel", "refresh", "rsend", "rwait", "timer", "exited", "absent"}
   /\ rounds \in 0..MaxRounds
 
 Init ==
@@ -93,11 +105,18 @@ Init ==
 
 SessionDone == rd \in {"done", "absent"}
 
-\* upstream.MakeRequestToHost(r): quit check, getClient (dial), client.Send
-MakeRequest(r) ==
-  IF uquit \/ backend = "closed" \/ client = "dead"
-    THEN /\ req' = [req EXCEPT ![r] = "err"] /\ UNCHANGED <<client, inflight>>
-    ELSE /\ req' = [req EXCEPT ![r] = "pending"] /\ client' = "alive" /\ inflight' = inflight \cup {r}
+\* upstream.MakeRequestToHost(r), first part: quit check and getClient (dial).  TRUE: the request
+\* is answered with an error at once; FALSE: the caller goes on to client.Send
+Refused == uquit \/ backend = "closed" \/ client = "dead"
+AnswerErr(r) == req' = [req EXCEPT ![r] = "err"] /\ UNCHANGED <<client, inflight>>
+Connect == client' = "alive" /\ UNCHANGED <<req, inflight>>
+
+\* client.Send(r): select {<-c.quit -> answer with an error | c.pendingReqs <- r}; the second branch
+\* needs room in the connection's queues (a silent backend never makes any)
+Send(r) ==
+  \/ client = "dead" /\ AnswerErr(r)
+  \/ /\ client = "alive" /\ Cardinality(inflight) < ClientQCap
+     /\ req' = [req EXCEPT ![r] = "pending"] /\ inflight' = inflight \cup {r} /\ UNCHANGED client
 
 \* the client terminates: every request in flight is answered with an error
 FailInflight == req' = [r \in Reqs |-> IF r \in inflight THEN "err" ELSE req[r]] /\ inflight' = {}
@@ -135,7 +154,8 @@ CallStop ==
 (* redisProc.Stop (redis.go:170-176)                                       *)
 \* (repaired: close(p.quit))
 X0 == /\ xp = "x0" /\ pquit' = FixProcQuit /\ xp' = "x0b"
-      /\ UNCHANGED <<backend, dconn, squit, SessVars, sent, req, client, inflight, UpVars>>
+      /\ uquit' = (uquit \/ FixUpstreamQuitFirst)     \* (repaired: p.u.signalQuit())
+      /\ UNCHANGED <<backend, dconn, squit, SessVars, sent, req, client, inflight, udone, up, rf, rounds>>
 \* p.l.Stop(): close(quit), close the socket and the session's connection
 X0b == /\ xp = "x0b" /\ dconn' = "closed" /\ xp' = "x1"
        /\ UNCHANGED <<backend, pquit, squit, SessVars, sent, req, client, inflight, UpVars>>
@@ -162,7 +182,12 @@ RdRead ==
   /\ UNCHANGED <<backend, xp, dconn, pquit, squit, nread, wr, wcur, sessQ, sent, req, client, inflight, UpVars>>
 \* p.handleRequest(req)
 RdHandle ==
-  /\ rd = "handle" /\ MakeRequest(nread + 1) /\ rd' = "enqueue"
+  /\ rd = "handle"
+  /\ IF Refused THEN AnswerErr(nread + 1) /\ rd' = "enqueue" ELSE Connect /\ rd' = "send"
+  /\ UNCHANGED <<backend, xp, dconn, pquit, squit, nread, wr, wcur, sessQ, sent, UpVars>>
+\* ... client.Send: nothing but the backend connection's quit gets a blocked Send going again
+RdSend ==
+  /\ rd = "send" /\ Send(nread + 1) /\ rd' = "enqueue"
   /\ UNCHANGED <<backend, xp, dconn, pquit, squit, nread, wr, wcur, sessQ, sent, UpVars>>
 \* select {processingReqs <- req | <-s.quit -> return | (repaired) <-s.p.quit -> return}
 RdEnqueue ==
@@ -178,7 +203,7 @@ RdExit ==
 RdWait ==
   /\ rd = "rwait" /\ wr = "exited" /\ rd' = "done"
   /\ UNCHANGED <<backend, xp, dconn, pquit, squit, nread, wr, wcur, sessQ, sent, req, client, inflight, UpVars>>
-ReaderNext == RdRead \/ RdHandle \/ RdEnqueue \/ RdExit \/ RdWait
+ReaderNext == RdRead \/ RdHandle \/ RdSend \/ RdEnqueue \/ RdExit \/ RdWait
 
 (* session writer (session.go loopWrite)                                   *)
 WrExit == wr' = "exited" /\ dconn' = "closed" /\ squit' = TRUE
@@ -204,14 +229,19 @@ WriterNext == WrSelect \/ WrWait \/ WrEncode
 -----------------------------------------------------------------------------
 (* upstream.Serve (upstream.go:92-114): wait for the refresher (and the    *)
 (* hot-key collector, which returns on quit), stop every client, close done *)
+\* (repaired) after quit every client is told to quit at once: whoever is blocked in a Send gets away
+UpSignal ==
+  /\ FixSignalBeforeWait /\ up = "run" /\ uquit /\ up' = "signalled"
+  /\ IF client = "alive" THEN client' = "dead" /\ FailInflight ELSE UNCHANGED <<client, req, inflight>>
+  /\ UNCHANGED <<backend, xp, dconn, pquit, squit, SessVars, sent, uquit, udone, rf, rounds>>
 UpWait ==
-  /\ up = "run" /\ uquit /\ rf \in {"exited", "absent"} /\ up' = "stopClients"
+  /\ up = (IF FixSignalBeforeWait THEN "signalled" ELSE "run") /\ uquit /\ rf \in {"exited", "absent"} /\ up' = "stopClients"
   /\ UNCHANGED <<backend, xp, dconn, pquit, squit, SessVars, sent, req, client, inflight, uquit, udone, rf, rounds>>
 UpStopClients ==
   /\ up = "stopClients" /\ up' = "done" /\ udone' = TRUE
   /\ IF client = "alive" THEN client' = "dead" /\ FailInflight ELSE UNCHANGED <<client, req, inflight>>
   /\ UNCHANGED <<backend, xp, dconn, pquit, squit, SessVars, sent, uquit, rf, rounds>>
-UpstreamNext == UpWait \/ UpStopClients
+UpstreamNext == UpSignal \/ UpWait \/ UpStopClients
 
 (* slot refresher (upstream.go loopRefreshSlots / doSlotsRefresh)          *)
 RfSelect ==
@@ -221,7 +251,10 @@ RfSelect ==
   /\ UNCHANGED <<backend, xp, dconn, pquit, squit, SessVars, sent, client, inflight, uquit, udone, up>>
 RfRefresh ==
   /\ rf = "refresh" /\ req[RReq] = "none" /\ RReq \notin inflight
-  /\ MakeRequest(RReq) /\ rf' = "rwait"
+  /\ IF Refused THEN AnswerErr(RReq) /\ rf' = "rwait" ELSE Connect /\ rf' = "rsend"
+  /\ UNCHANGED <<backend, xp, dconn, pquit, squit, SessVars, sent, uquit, udone, up, rounds>>
+RfSend ==
+  /\ rf = "rsend" /\ Send(RReq) /\ rf' = "rwait"
   /\ UNCHANGED <<backend, xp, dconn, pquit, squit, SessVars, sent, uquit, udone, up, rounds>>
 \* req.Wait()  (repaired: select {<-req.done | <-u.quit -> return an error})
 RfWait ==
@@ -236,7 +269,7 @@ RfTimer ==
   /\ \/ uquit /\ rf' = "exited"
      \/ ~uquit /\ rf' = "sel"
   /\ UNCHANGED <<backend, xp, dconn, pquit, squit, SessVars, sent, req, client, inflight, uquit, udone, up, rounds>>
-RefreshNext == RfSelect \/ RfRefresh \/ RfWait \/ RfTimer
+RefreshNext == RfSelect \/ RfRefresh \/ RfSend \/ RfWait \/ RfTimer
 
 -----------------------------------------------------------------------------
 ProxyNext == StopNext \/ ReaderNext \/ WriterNext \/ UpstreamNext \/ RefreshNext
@@ -271,5 +304,8 @@ W_StopWithSilentBackend == xp = "x1" /\ wr = "wait" /\ req[wcur] = "pending" /\ 
 W_StopWithFullSessionQueue ==
   /\ xp = "x1" /\ rd = "enqueue" /\ Len(sessQ) = SessQCap /\ ~squit
   /\ wr = "wait" /\ req[wcur] = "pending" /\ backend = "silent"
+BackendQueueFull == client = "alive" /\ Cardinality(inflight) >= ClientQCap /\ backend = "silent"
+W_StopWithFullBackendQueue == xp = "x1" /\ rd = "send" /\ BackendQueueFull
+W_StopWhileRefreshBlockedInSend == xp = "x3" /\ rf = "rsend" /\ BackendQueueFull
 W_StopWhileRefreshWaits == xp = "x3" /\ rf = "rwait" /\ req[RReq] = "pending" /\ backend = "silent"
 =============================================================================
